@@ -63,7 +63,11 @@ pub fn run(args: &[String]) {
         HI.with(|h| h.set(unit.map(|u| (case["hi"].as_u64().expect("hi unit"), u))));
         let mut case = case.clone();
         if let Some(u) = unit { case["hi_unit_log2"] = json!(u); }
-        let cfg = config_of(&case["cfg"], p);
+        let mut cfg = config_of(&case["cfg"], p);
+        // "inv.*": a quotient in the field has no image under the lift; it is recomputed at the real prime
+        if let Some(ds) = case["devs"].as_array() { for d in ds { if d[0] == "inv.nQueries" {
+            if let Ok(inv) = cfg.log_n_cosets.inverse().ok_or(()) { cfg.n_queries = Felt::from(d[1].as_u64().unwrap()) * inv; }
+        } } }
         let sec = lift(&case["sec"], p);
         let (n1, n2) = (lift(&case["n1"], p), lift(&case["n2"], p));
         cases += 1;
